@@ -117,5 +117,81 @@ theorem isBot_merge {a b} (wa : S.wf a) (wb : S.wf b) :
         (h.trans _ _ _ (h.merge_wf _ _ wb wm) (h.merge_wf _ _ wm wb) wm (h.comm _ _ wb wm) eb')
     rw [h.isBot_congr wa wm e1, h.isBot_congr wb wm e2, hm]; rfl
 
+/-! ### the lattice order induced by merge: `b ≤ a` iff joining `b` into `a` yields `a` -/
+
+end LawfulA
+
+/-- `leq L S b a`: merging `b` into `a` gives (a value equivalent to) `a` -/
+def leq (L : Lat α) (S : Sem α) (b a : α) : Prop := S.eqv (L.merge a b).1 a
+
+namespace LawfulA
+variable {L : Lat α} {S : Sem α} (h : LawfulA L S)
+include h
+
+theorem flag_false_iff_leq {a b} (wa : S.wf a) (wb : S.wf b) :
+    (L.merge a b).2 = false ↔ leq L S b a := h.flag a b wa wb
+
+theorem leq_refl {a} (wa : S.wf a) : leq L S a a := h.idem a wa
+
+theorem leq_of_eqv {a b} (wa : S.wf a) (wb : S.wf b) (e : S.eqv a b) : leq L S a b := by
+  -- b ⊔ a ≈ b ⊔ b ≈ b
+  have w1 := h.merge_wf b a wb wa
+  have w2 := h.merge_wf b b wb wb
+  exact h.trans _ _ _ w1 w2 wb (h.merge_congr b b a b wb wb wa wb (h.refl b wb) e) (h.idem b wb)
+
+theorem leq_antisymm {a b} (wa : S.wf a) (wb : S.wf b) (h1 : leq L S a b) (h2 : leq L S b a) :
+    S.eqv a b := by
+  -- a ≈ a⊔b ≈ b⊔a ≈ b
+  have w1 := h.merge_wf a b wa wb
+  have w2 := h.merge_wf b a wb wa
+  exact h.trans _ _ _ wa w1 wb (h.symm _ _ w1 wa h2) (h.trans _ _ _ w1 w2 wb (h.comm a b wa wb) h1)
+
+theorem leq_trans {a b c} (wa : S.wf a) (wb : S.wf b) (wc : S.wf c)
+    (h1 : leq L S a b) (h2 : leq L S b c) : leq L S a c := by
+  -- c⊔a ≈ (c⊔b)⊔a ≈ c⊔(b⊔a) ≈ c⊔b ≈ c
+  have wcb := h.merge_wf c b wc wb
+  have wba := h.merge_wf b a wb wa
+  have wca := h.merge_wf c a wc wa
+  have e1 := h.merge_congr c (L.merge c b).1 a a wc wcb wa wa (h.symm _ _ wcb wc h2) (h.refl a wa)
+  have e2 := h.assoc c b a wc wb wa
+  have e3 := h.merge_congr c c (L.merge b a).1 b wc wc wba wb (h.refl c wc) h1
+  have w1 := h.merge_wf _ _ wcb wa
+  have w2 := h.merge_wf _ _ wc wba
+  exact h.trans _ _ _ wca w1 wc e1 (h.trans _ _ _ w1 w2 wc e2 (h.trans _ _ _ w2 wcb wc e3 h2))
+
+theorem leq_merge_left {a b} (wa : S.wf a) (wb : S.wf b) : leq L S a (L.merge a b).1 :=
+  (h.flag _ _ (h.merge_wf a b wa wb) wa).1 (h.ub_left wa wb)
+
+theorem leq_merge_right {a b} (wa : S.wf a) (wb : S.wf b) : leq L S b (L.merge a b).1 :=
+  (h.flag _ _ (h.merge_wf a b wa wb) wb).1 (h.ub_right wa wb)
+
+/-- the merge is the LEAST upper bound -/
+theorem merge_least {a b c} (wa : S.wf a) (wb : S.wf b) (wc : S.wf c)
+    (h1 : leq L S a c) (h2 : leq L S b c) : leq L S (L.merge a b).1 c := by
+  -- c ⊔ (a⊔b) ≈ (c⊔a)⊔b ≈ c⊔b ≈ c
+  have wab := h.merge_wf a b wa wb
+  have wca := h.merge_wf c a wc wa
+  have wcb := h.merge_wf c b wc wb
+  have e1 := h.symm _ _ (h.merge_wf _ _ wca wb) (h.merge_wf _ _ wc wab) (h.assoc c a b wc wa wb)
+  have e2 := h.merge_congr (L.merge c a).1 c b b wca wc wb wb h1 (h.refl b wb)
+  exact h.trans _ _ _ (h.merge_wf _ _ wc wab) (h.merge_wf _ _ wca wb) wc e1
+    (h.trans _ _ _ (h.merge_wf _ _ wca wb) wcb wc e2 h2)
+
+/-- C02: `true` exactly when the receiver strictly increased -/
+theorem flag_true_iff_strict {a b} (wa : S.wf a) (wb : S.wf b) :
+    (L.merge a b).2 = true ↔ leq L S a (L.merge a b).1 ∧ ¬ leq L S (L.merge a b).1 a := by
+  have wm := h.merge_wf a b wa wb
+  have hl := h.leq_merge_left wa wb
+  constructor
+  · intro ht
+    refine ⟨hl, fun hr => ?_⟩
+    have e := h.leq_antisymm wm wa hr hl
+    have := (h.flag a b wa wb).2 e
+    rw [this] at ht; cases ht
+  · rintro ⟨_, hn⟩
+    cases hf : (L.merge a b).2
+    · exact absurd (h.leq_of_eqv wm wa ((h.flag a b wa wb).1 hf)) hn
+    · rfl
+
 end LawfulA
 end HvLat
